@@ -344,6 +344,13 @@ def type_job(name):
             paths.append(i[1])
     paths.sort(key=lambda q: (len(q), q))
     case = {"paths": paths, "alloc": alloc, "deinit": deinit}
+    case["ref"] = None
+    if len(paths) == 1:
+        # no pointer members: the module as a whole fits the reference-count model as well (pointer members are
+        # outside what harness/fextract.py parse_module understands)
+        ref = tlc_case(text)
+        case["ref"] = {k: ref[k] for k in ("subs", "allvec", "allrc", "locals", "flags", "phaselits", "assoclits")}
+        w1 = w1 + ref["warnings"]
     drv = TYPE_DRIVER % {"use": (T["tname"] + ", ") if T["tname"] else "", "decl": T.get("decl") or "type(%s) :: y0" % T["tname"],
                          "init": T["init"], "fini": T["fini"]}
     d = tempfile.mkdtemp(prefix="verif_type_")
@@ -378,7 +385,15 @@ def type_stage(chk):
     warn = [w for r in res for w in r[3]]
     if warn:
         raise tlc.MachineryError("type-routine extractor met text it does not understand: %s" % warn[:3])
-    out = tlc.judge_batch("TypeRoutines", [r[1] for r in res], chunk=20, jobs=1, tags=("BAD", "RAN"), chk=chk)
+    out = tlc.judge_batch("TypeRoutines", [{k: r[1][k] for k in ("paths", "alloc", "deinit")} for r in res], chunk=20, jobs=1,
+                          tags=("BAD", "RAN"), chk=chk)
+    cfg = tlc.temp_cfg("CONSTANTS\n MaxRuns = 2\n MaxIters = 2\nINIT Init\nNEXT Next\nCHECK_DEADLOCK FALSE\nINVARIANT Safety\n"
+                       "INVARIANT NoLeakAtShutdown\nCONSTRAINT Bound\n")
+    with_ref = [k for k, r in enumerate(res) if r[1]["ref"] is not None]
+    out_ref = tlc.judge_batch("RefCount", [res[k][1]["ref"] for k in with_ref], cfg=cfg, chunk=8, workers=2, jobs=4, chk=chk, timeout=1200)
+    refbad = {}
+    for t in out_ref["BAD"]:
+        refbad.setdefault(with_ref[t[1]], set()).add(t[2].split(":")[0])
     ran = {}
     for t in out["RAN"]:
         ran.setdefault(t[1], set()).add((t[2], t[3]))
@@ -387,6 +402,7 @@ def type_stage(chk):
         bad.setdefault(t[1], set()).add(t[2])
         ran.setdefault(t[1], set()).add((t[3], t[4]))
     confirmed = 0
+    unexplained = []
     for k, (name, case, seen, _w) in enumerate(res):
         if len(ran.get(k, ())) != 6:
             raise tlc.MachineryError("TypeRoutines: type %s: %d of 6 routine x scenario runs judged" % (name, len(ran.get(k, ()))))
@@ -401,9 +417,18 @@ def type_stage(chk):
                     chk.violation("C12:type-routines:%s:%s" % (clause, name),
                                   "the storage routines emitted for user type %s violate %s on the object model, and a real method "
                                   "over that type shows %s under the sanitizer" % (name, clause, seen), {"type": name})
+        elif refbad.get(k):
+            # the module of this type as a whole violates the reference-count model (the routines themselves are fine)
+            for clause in sorted(refbad[k] & set(seen)):
+                confirmed += 1
+                chk.violation("C12:%s:user-type %s" % (clause, name),
+                              "%s: model-checking the skeleton of the module generated for user type %s finds it and the compiled "
+                              "module shows %s under the sanitizer" % (clause, name, seen[clause]), {"type": name})
         elif set(seen) - {"other-sanitizer-report"}:
-            raise tlc.MachineryError("sanitizer reports %s for user type %s but neither model found a violation" % (seen, name))
-    return {"user_types": names, "type_routine_runs_judged": sum(len(v) for v in ran.values()),
+            # a module with pointer members is outside the reference-count model as a whole: the report must be explained by
+            # a violation found elsewhere in this run (checked at the end of run)
+            unexplained.append((name, seen))
+    return {"unexplained": unexplained, "user_types": names, "type_routine_runs_judged": sum(len(v) for v in ran.values()),
             "types_with_model_violation": len(bad), "types_confirmed_on_binary": confirmed,
             "paths": {r[0]: ["%".join(q) for q in r[1]["paths"]] for r in res}}
 
@@ -518,6 +543,10 @@ def run(chk):
             if set(seen) - {"other-sanitizer-report"}:
                 raise tlc.MachineryError("sanitizer reports %s for [%s] but the model found no violation (extractor or model "
                                          "misses something)" % (seen, text))
+    unexplained = types.pop("unexplained")
+    for name, seen in unexplained:
+        if not any(v.signature.split(":")[1] in seen for v in chk.violations):
+            raise tlc.MachineryError("sanitizer reports %s for user type %s but no model found such a violation anywhere" % (seen, name))
     chk.coverage.update({
         "evaluations": len(ok),
         "distinct_nontrivial": sum(1 for c in ok if len(c["allvec"]) >= 3),
